@@ -207,7 +207,7 @@ CHECKS['C03'] = dict(
                                  'any conforming allocator may return a freed address again and leaves fresh memory indeterminate'],
     stages=[
         dict(name='history', harness=H('c03', ['harness/c03_history.cpp'], ldflags=GARBAGE_LD),
-             plan={'quick': 'history=48:60,history_ds=2:30', 'thorough': 'history=480:100,history_ds=16:40'}, env={'VERIF_CASE_TIMEOUT': '600'}),
+             plan={'quick': 'history=48:60,history_ds=2:30', 'thorough': 'history=1280:100,history_ds=32:40'}, env={'VERIF_CASE_TIMEOUT': '600'}),
     ],
 )
 
@@ -220,7 +220,7 @@ CHECKS['C16'] = dict(
     assumptions=COMMON_ASSUME + ['the interposed mmap/mprotect log sees every request of the statically linked library; the executable stack caused by the missing .note.GNU-stack in jit_compiler_x86_static.S is not a library-owned code buffer and is ignored'],
     stages=[
         dict(name='secure', harness=H('c16', ['harness/c03_history.cpp'], cflags=['-DWITH_PROT_ORACLE'], ldflags=GARBAGE_LD + ['-Wl,--wrap=mmap', '-Wl,--wrap=munmap', '-Wl,--wrap=mprotect']),
-             plan={'quick': 'secure=48:60,secure_ds=2:30', 'thorough': 'secure=480:100,secure_ds=16:40'}, env={'VERIF_CASE_TIMEOUT': '600'}),
+             plan={'quick': 'secure=48:60,secure_ds=2:30', 'thorough': 'secure=1280:100,secure_ds=32:40'}, env={'VERIF_CASE_TIMEOUT': '600'}),
     ],
 )
 
